@@ -46,6 +46,8 @@ def run(ctx, obs):
     value_immutability(ctx, obs, prefixes=('rdm.rdms.', 'util.descriptor_utils.', 'util.rdm_utils.'))
     from ..rules import sweeps
     sweeps.run(ctx, obs, 'C10')
+    from ..rules import order as _ord
+    _ord.report(ctx, obs, ['rdm.rdms.', 'util.descriptor_utils.', 'util.rdm_utils.', 'rdm.combine.'])
     prog = ctx.prog
     for q in PRODUCERS:
         n = field_provenance(ctx, obs, q, ['RDMs'], FIELDS, exceptions=EXC)
